@@ -281,6 +281,10 @@ def run(ctx):
                 ctx.drift("channel.parse", "%s: model (%r,%r..) real (%r,%r..)" % (
                     label, ans["ran"], mf[:3], real["ran"], real["fails"][:3]), case)
     stdout_cases(ctx)
+    spawn_failure_cases(ctx)
+    # real children that die at any point, at the OS level or through Python
+    from harness import corr_c02
+    corr_c02.run_cases(ctx, corr_c02.death_cases(ctx, 10 if ctx.quick() else 200))
 
 
 STDOUT_LINES = [b"...\rprogress of a test\n", b"  Ran 3 tests with 0 failures\n", b".\n", b"....\n", b"..\r\n", b"...\r", b"." * 72 + b" done\n",
